@@ -22,6 +22,19 @@ Fixpoint starts_ok (b : bool) (es : list effect) : bool :=
   | e :: r => (match e with ERetransStart => negb b | _ => true end) && starts_ok (live_step b e) r
   end.
 
+(* the message handed to a new retransmitter is opening_tx_broadcasted: every ERetransStart is
+   directly followed by the first send of that retransmitter, and it carries an MOtb *)
+Fixpoint retrans_msg_ok (es : list effect) : bool :=
+  match es with
+  | [] => true
+  | ERetransStart :: r =>
+      match r with
+      | ESend _ (MOtb _) :: _ => retrans_msg_ok r
+      | _ => false
+      end
+  | _ :: r => retrans_msg_ok r
+  end.
+
 (* ---------- what an action tree can do to the retransmitter ---------- *)
 Definition retry_leaf : string := "SendMessageWithRetryAction".
 
@@ -128,10 +141,7 @@ Fixpoint c22_steps_ok (b : bool) (l : list obs_step) : bool :=
   end.
 
 (* only opening_tx_broadcasted is ever retransmitted: the message of the announcing step *)
-Definition announces_otb (s : obs_step) : bool :=
-  if existsb (fun e => match e with ERetransStart => true | _ => false end) (os_effects s)
-  then existsb (fun e => match e with ESend _ (MOtb _) => true | _ => false end) (os_effects s)
-  else true.
+Definition announces_otb (s : obs_step) : bool := retrans_msg_ok (os_effects s).
 
 Definition c22_monitor (c : fsm_case) : bool :=
   c22_steps_ok false (sc_steps c) && forallb announces_otb (sc_steps c).
